@@ -915,6 +915,11 @@ def execute(case, record_kernel=True, setup=None):
         kernel.WaitQueue = wq.SDWaitQueue if waitq == "sd" else wq.HQWaitQueue
     start = scenario.get("start", 0)
     raised = None
+    if any(fault.get("kind") == "gc" for fault in world.plan):
+        # garbage of earlier runs must not be finalised inside this simulation
+        sys.unraisablehook = _silent_hook
+        gc.collect()
+        sys.unraisablehook = _unraisable_collector(unraisable)
     try:
         with world.seam as seam:
             try:
